@@ -51,6 +51,16 @@ def cells(tier):
                       may_fail=False, sort_objects=True, sym_rc=1))
     out.append(mk(PID, ('roDelete', 'roStoryMove', 'roStoryAppend'), False, 'file', perm=[3, 0, 2, 1], widths=[1, 2, 3], T=T,
                   sym_ids=True, may_fail=False, sort_objects=True, sym_rc=2))
+    # messages from different senders (ncsID), files sharing a base name, message IDs padded with whitespace
+    for perm in ([2, 1, 0], [1, 0, 2]):
+        out.append(mk(PID, pairs[0], True, 'string', perm=perm, widths=[1, 2], T=T, sym_ids=True, may_fail=False,
+                      sort_objects=True, ncs_ids=['ZZ.MAIN', 'AA.BACKUP']))
+        out.append(mk(PID, pairs[0], True, 'file', perm=perm, widths=[2, 1], T=T, sym_ids=True, may_fail=False,
+                      same_basename=True))
+        out.append(mk(PID, ('roStoryAppend', 'roStoryInsert', 'roStoryMove'), True, 'string', perm=perm + [3], T=T,
+                      may_fail=False, sort_objects=True, mids=[' 20', '3 ', chr(10) + '100' + chr(10)], tag='padded-ids'))
+        out.append(mk(PID, pairs[1], True, 'file', perm=perm, T=T, may_fail=False, mids=['+12', '7'], tag='signed-id',
+                      same_basename=True))
     # a roReplace is ordered by its message ID like everything else
     for perm in ([3, 2, 1, 0], [1, 3, 0, 2], [0, 1, 2, 3]):
         out.append(mk(PID, ('roMetadataReplace', 'roReplace', 'roMetadataReplace'), True, 'string', perm=perm,
